@@ -726,6 +726,9 @@ fn c06(cx: &Ctx) {
                     o.k == *k
                         && o.failed
                         && o.done < r.ret
+                        // a round that an explicit insert closed before this caller was even invoked is not this
+                        // caller's round: its late failure must not reach the callers of a later round
+                        && !cx.log.oplog.iter().any(|ins| matches!(&ins.op, Op::Insert { k: ik, .. } if ik == k) && ins.inv > o.start && ins.ret < r.inv && ins.ret < o.done)
                         && (o.done > r.inv
                             || cx.log.oplog.iter().any(|q| {
                                 matches!(&q.op, Op::Fetch { k: qk, .. } if qk == k)
